@@ -30,7 +30,9 @@ func c02Str(r *core.Rand) string {
 	case 0:
 		return core.Pick(r, gen.YAMLLookalikes)
 	case 1:
-		return core.Pick(r, []string{"$FOO", "${BAR:-d}", "$$X", "pre-$FOO"})
+		// (BAR is set to the empty string, UNSET_TRAIL is not set: a reference at the very end of a string leaves a
+		// trailing blank behind, which only exists after interpolation)
+		return core.Pick(r, []string{"$FOO", "${BAR:-d}", "$$X", "pre-$FOO", "deploy --env prod ${UNSET_TRAIL}", "run $BAR", "$BAR", " $BAR lead", "tab\t${UNSET_TRAIL}"})
 	}
 	return core.Pick(r, []string{"build", "make test", "echo \"hi\"", "a\\b", "é😀", "x", "k=v", "tab\there", "<&>", "a,b", "true", "1", "null", "line1\nline2"})
 }
@@ -100,9 +102,23 @@ func runC02(c *ctx) error {
 				c.res.Hist("contains-unknown-step")
 				break
 			}
+			if p.Env != nil && p.Env.Len() >= 3 && i%5 == 2 {
+				// the env block edited through the map API before signing: a deletion that leaves a tombstone
+				// (no compaction below half), so storage and contents differ
+				var victim string
+				p.Env.Range(func(kk, _ string) error {
+					if victim == "" {
+						victim = kk
+					}
+					return nil
+				})
+				p.Env.Delete(victim)
+				c.res.Hist("env-block.entry-deleted-through-api-before-signing")
+			}
+			// WithEnv(p.Env.ToMap()) is how the pipeline env is handed to SignSteps
 			penv := map[string]string{}
 			if p.Env != nil {
-				p.Env.Range(func(kk, v string) error { penv[kk] = v; return nil })
+				penv = p.Env.ToMap()
 			}
 			if err := signature.SignSteps(context.Background(), p.Steps, k.signer, repo, signature.WithEnv(penv)); err != nil {
 				c.res.Fail(core.OracleFailure{What: "SignSteps failed on a pipeline without unknown steps", Input: string(src), Got: err.Error()})
